@@ -39,6 +39,14 @@ var hostileInts = []string{
 	"1000000000000000000", "123456789012345678",
 }
 
+// RangeBoundaryTokens are number tokens at the ends of the int64 range.
+var RangeBoundaryTokens = []string{
+	"9223372036854775807", "9223372036854775808", "9223372036854775809", "-9223372036854775808", "-9223372036854775809",
+	"9223372036854775807.0", "9223372036854775808.0", "-9223372036854775808.0", "9.223372036854775808e18", "-9.223372036854775808e18",
+	"9.223372036854775807e18", "1e19", "-1e19", "18446744073709551615", "18446744073709551616", "9223372036854774784.0", "9223372036854776832",
+	"4611686018427387904.0", "9007199254740993.0",
+}
+
 var hostileFloats = []string{
 	"0.0", "-0.0", "1.5", "-2.25", "1e2", "1E2", "1e+2", "2.5e-3", "1e-7",
 	"1.0", "3.00", "0.1", "123456789.125", "1e21", "1.7976931348623157e308",
@@ -263,7 +271,7 @@ func Mutate(t *rapid.T, v any) (any, Mutation) {
 func applicableMuts(v any) []string {
 	switch x := v.(type) {
 	case json.Number:
-		r := []string{"num->string", "int->frac", "wrap-array", "null", "scalar->obj"}
+		r := []string{"num->string", "int->frac", "wrap-array", "null", "scalar->obj", "num->range-boundary", "num->range-boundary"}
 		if _, err := strconv.ParseInt(string(x), 10, 64); err == nil && len(x) < 15 {
 			r = append(r, "int->integral-float")
 		}
@@ -340,6 +348,20 @@ func applyMut(v any, kind string, mut *Mutation) any {
 	case "int->frac":
 		if _, ok := v.(json.Number); ok {
 			return json.Number("1.5")
+		}
+	case "num->range-boundary":
+		// integral values at and just beyond the ends of the int64 range,
+		// written as integers and as floats.
+		if n, ok := v.(json.Number); ok {
+			toks := RangeBoundaryTokens
+			h := 0
+			for _, c := range []byte(n) {
+				h = h*31 + int(c)
+			}
+			if h < 0 {
+				h = -h
+			}
+			return json.Number(toks[h%len(toks)])
 		}
 	case "int->integral-float":
 		if n, ok := v.(json.Number); ok {
